@@ -650,6 +650,22 @@ def oracle_inner(case):
         viol.append(V('order_reference', 'solution of the implementation violates the independent formulation by %.3g' % infeas, what='feasible'))
     elif abs(own - val) > vs:
         viol.append(V('order_reference', 'reported value %.9g but fractions and dispatch of the output are worth %.9g in the independent formulation' % (val, own), what='worth'))
+    # re-optimisation: a second set-up of the SAME objects on the SAME grid object gives the same problem and optimum
+    try:
+        with Quiet():
+            op_b = rec['portf'].setup_optim_problem(rec['prices'], rec['tg'])
+        op_a = rec['op']
+        same_problem = (len(op_a.c) == len(op_b.c) and np.array_equal(op_a.c, op_b.c) and np.array_equal(op_a.l, op_b.l) and np.array_equal(op_a.u, op_b.u)
+                        and len(op_a.mapping) == len(op_b.mapping))
+        obs['second_setup_same'] = bool(same_problem)
+        if not same_problem:
+            res_b = impl.solve(op_b)
+            vb = None if isinstance(res_b, str) else float(res_b.value)
+            if vb is None or abs(vb - rv) > vs:
+                viol.append(V('order_reference', 'second set-up of the same portfolio on the same grid: optimum %s, optimum of the independent per-order formulation %.9g' % (
+                    'not found (%s)' % res_b if vb is None else '%.9g' % vb, rv), what='second_setup'))
+    except Exception as e:
+        viol.append(V('order_reference', 'second set-up of the same portfolio on the same grid raises %s: %s' % (type(e).__name__, str(e)[:120]), what='second_setup'))
     # inert orders
     if case.get('inert'):
         ext = [(p, o) for p, o in case['inert']]
